@@ -754,7 +754,11 @@ func (fc *FnCtx) makeIface(st *State, x Val, it types.Type) Val {
 			fc.sc.assume(sx(">", id, "0"))
 			return Val{K: KIface, T: it, Tag: tag, S: id}
 		}
-		unsup("interior pointer in interface")
+if x.A.Kind == AElem && x.A.Idx == "" && len(x.A.Path) == 0 {
+			// pointer to a whole array object: the payload is the array's identity
+			return Val{K: KIface, T: it, Tag: tag, S: x.A.Base}
+		}
+				unsup("interior pointer in interface (kind %d idx %q path %v type %v)", x.A.Kind, x.A.Idx, x.A.Path, x.T)
 	case KStruct:
 		ref := fc.newRef(st, "box")
 		fc.store(st, &Addr{Kind: AObj, Base: ref, Root: x.T, T: x.T}, x)
